@@ -18,7 +18,7 @@ pub fn cfg() -> GenCfg {
     c.slices = false;
     c.ext_files = false;
     c.user_data = false;
-    c.max_layers = 8;
+    c.max_layers = 12;
     c.cel_density = 6;
     c.max_frames = 3;
     c
